@@ -21,6 +21,9 @@ import (
 	"strings"
 	"time"
 
+	"golang.org/x/sys/unix"
+
+	"github.com/mutagen-io/mutagen/pkg/filesystem"
 	"github.com/mutagen-io/mutagen/pkg/synchronization"
 	"github.com/mutagen-io/mutagen/pkg/synchronization/core"
 	"github.com/mutagen-io/mutagen/pkg/synchronization/endpoint/local"
@@ -50,13 +53,78 @@ type chgSpec struct {
 	NewX   bool              `json:"newx,omitempty"`
 }
 
+// faultSpec is an I/O fault arranged around a Stage or Recv call. From the
+// model: Step/How (flush1 | final | close | rename, short | error); from the
+// driver's own generators: FSize (RLIMIT_FSIZE in bytes while the call runs:
+// the write that crosses it is cut short and the next one fails with EFBIG) or
+// Rename (the rename of the temporary staging file into the store fails).
+type faultSpec struct {
+	Step   string `json:"step,omitempty"`
+	How    string `json:"how,omitempty"`
+	FSize  int    `json:"fsize,omitempty"`
+	Rename bool   `json:"rename,omitempty"`
+}
+
+// resolve maps a model fault onto what can genuinely be provoked.
+func (f *faultSpec) resolve() (kind string, limit int) {
+	if f == nil {
+		return "none", 0
+	}
+	switch {
+	case f.FSize > 0:
+		return "fsize", f.FSize
+	case f.Rename || f.Step == "rename":
+		return "rename", 0
+	case f.Step == "final" || f.Step == "flush1":
+		return "fsize", 4000 // below every non-empty model content: the final flush crosses it
+	}
+	return "none", 0 // "close" faults cannot be provoked on a local file
+}
+
+func faultRecord(f *faultSpec) map[string]any {
+	kind, limit := f.resolve()
+	return map[string]any{"kind": kind, "limit": limit}
+}
+
+// withFault runs call with the fault in force.
+func (w *world) withFault(f *faultSpec, call func()) {
+	kind, limit := f.resolve()
+	switch kind {
+	case "fsize":
+		var old unix.Rlimit
+		if err := unix.Getrlimit(unix.RLIMIT_FSIZE, &old); err != nil {
+			vlib.Fatal("getrlimit: %v", err)
+		}
+		lim := unix.Rlimit{Cur: uint64(limit), Max: old.Max}
+		if err := unix.Setrlimit(unix.RLIMIT_FSIZE, &lim); err != nil {
+			vlib.Fatal("setrlimit: %v", err)
+		}
+		defer unix.Setrlimit(unix.RLIMIT_FSIZE, &old)
+		call()
+	case "rename":
+		staging := w.staging
+		filesystem.VerifSetFault(func(op, name string) error {
+			if (op == "renameat" || op == "renameat2") && strings.HasPrefix(name, staging) &&
+				strings.HasPrefix(filepath.Base(name), "storage") {
+				return unix.EIO
+			}
+			return nil
+		})
+		defer filesystem.VerifSetFault(nil)
+		call()
+	default:
+		call()
+	}
+}
+
 type opSpec struct {
-	Op    string    `json:"op"`
-	Req   []reqSpec `json:"req,omitempty"`
-	Kinds []string  `json:"kinds,omitempty"`
-	Chg   []chgSpec `json:"chg,omitempty"`
-	Path  []string  `json:"path,omitempty"`
-	C     string    `json:"c,omitempty"`
+	Fault *faultSpec `json:"fault,omitempty"`
+	Op    string     `json:"op"`
+	Req   []reqSpec  `json:"req,omitempty"`
+	Kinds []string   `json:"kinds,omitempty"`
+	Chg   []chgSpec  `json:"chg,omitempty"`
+	Path  []string   `json:"path,omitempty"`
+	C     string     `json:"c,omitempty"`
 }
 
 type caseSpec struct {
@@ -145,6 +213,11 @@ var modeOf = map[string]core.SynchronizationMode{
 func contentBytes(salt int64, name string) []byte {
 	if name == "empty" {
 		return []byte{}
+	}
+	if name == "big" { // larger than two write buffers of the store (64 KiB each)
+		out := make([]byte, 150000)
+		rand.New(rand.NewSource(salt*31 + 5)).Read(out)
+		return out
 	}
 	if contentUnit > 0 { // model-sized: units * contentUnit bytes, first unit shared
 		n := modelUnits(name) * contentUnit
@@ -384,6 +457,11 @@ func (w *world) doScan(rec map[string]any) *core.Snapshot {
 }
 
 func (w *world) doStage(rec map[string]any, paths []string, digests [][]byte, planned map[string][]byte) {
+	w.doStageFault(rec, paths, digests, planned, nil)
+}
+
+func (w *world) doStageFault(rec map[string]any, paths []string, digests [][]byte, planned map[string][]byte, fault *faultSpec) {
+	rec["fault"] = faultRecord(fault)
 	for _, p := range paths {
 		w.addPath(p)
 	}
@@ -404,7 +482,8 @@ func (w *world) doStage(rec map[string]any, paths []string, digests [][]byte, pl
 	var sigs []*rsync.Signature
 	var recv rsync.Receiver
 	var err error
-	ok := w.guard(func() { ret, sigs, recv, err = w.ep.Stage(pc, dc) })
+	var ok bool
+	w.withFault(fault, func() { ok = w.guard(func() { ret, sigs, recv, err = w.ep.Stage(pc, dc) }) })
 	rec["hang"] = !ok
 	rec["err"] = errText(err)
 	ret = append([]string{}, ret...)
@@ -532,7 +611,10 @@ func transmissionsFor(kind string, target []byte, sig *rsync.Signature) []*rsync
 	return out
 }
 
-func (w *world) doRecv(rec map[string]any, kinds []string) {
+func (w *world) doRecv(rec map[string]any, kinds []string) { w.doRecvFault(rec, kinds, nil) }
+
+func (w *world) doRecvFault(rec map[string]any, kinds []string, fault *faultSpec) {
+	rec["fault"] = faultRecord(fault)
 	rec["store0"] = w.store()
 	rec["disk0"] = w.disk()
 	plan := []any{}
@@ -563,7 +645,8 @@ func (w *world) doRecv(rec map[string]any, kinds []string) {
 	var err error
 	recv := w.receiver
 	n := uint64(len(w.pending))
-	ok := w.guard(func() { err = rsync.DecodeToReceiver(dec, n, recv) })
+	var ok bool
+	w.withFault(fault, func() { ok = w.guard(func() { err = rsync.DecodeToReceiver(dec, n, recv) }) })
 	w.receiver, w.pending, w.sigs, w.pendReq = nil, nil, nil, nil
 	rec["hang"] = !ok
 	rec["err"] = errText(err)
@@ -684,12 +767,12 @@ func runCase(c *vlib.Ctx, cid string, cs *caseSpec) {
 				digests = append(digests, digestOf(cs.Salt, r.C))
 				planned[p] = contentBytes(cs.Salt, r.C)
 			}
-			w.doStage(rec, paths, digests, planned)
+			w.doStageFault(rec, paths, digests, planned, op.Fault)
 			if rec["err"] == "" && len(paths) > 0 {
 				interesting = true
 			}
 		case "Recv":
-			w.doRecv(rec, op.Kinds)
+			w.doRecvFault(rec, op.Kinds, op.Fault)
 		case "Trans":
 			w.doTrans(rec, op.Chg)
 			if rec["err"] == "" {
